@@ -285,8 +285,13 @@ func (h *Handler) ServeFastHTTP(ctx *fasthttp.RequestCtx) {
 			return
 		}
 	}
-	serviceContext := h.getFastHTTPServiceContext(ctx)
 	body := ctx.Request.Body()
+	// Header.ContentLength() is -1 for a chunked body: look at what was received
+	if len(body) > h.Service.MaxRequestLength {
+		ctx.SetStatusCode(fasthttp.StatusRequestEntityTooLarge)
+		return
+	}
+	serviceContext := h.getFastHTTPServiceContext(ctx)
 	request := make([]byte, len(body))
 	copy(request, body)
 	result, err := h.Service.Handle(core.WithContext(context.Background(), serviceContext), request)
